@@ -49,7 +49,7 @@ const (
 	c06Fast = 750 * time.Millisecond
 	// c06Hammer: so many requests for one key to one scripted peer mean the honest peer is not
 	// handed out any more
-	c06Hammer = 60
+	c06Hammer = 10
 	// c06StallTimeout is what a stalled / silent peer costs a call without deadline
 	c06StallTimeout = 8 * time.Second
 	// c06Cooldown is longer than any case: no cool-down expires while a call is in flight; a cooled
